@@ -95,3 +95,8 @@ CORPUS += [
     Mut('c07-view-setter-tells-its-own-listeners-only', 'torchtree/core/parameter.py', '', "            self.parameter.tensor[..., self.indices] = tensor\n        self.parameter.fire_parameter_changed()\n",
         "            self.parameter.tensor[..., self.indices] = tensor\n        self.fire_parameter_changed()\n", mode='text', expect=[('C07.C', 'in-place::torchtree.core.parameter::ViewParameter.tensor')]),
 ]
+CORPUS += [
+    Mut('c07-root-rate-padded-without-the-sample-shape', 'torchtree/evolution/rate_transform.py', '', "                torch.ones(x.shape[:-1] + (1,)),\n", "                x.new_ones(1),\n", mode='text',
+        expect=[('C07.L', 'per-sample::evolution.rate_transform.LogDifferenceRateTransform._call::')]),
+    Mut('c07-benign-root-rate-padded-with-new-ones-of-the-sample-shape', 'torchtree/evolution/rate_transform.py', '', "                torch.ones(x.shape[:-1] + (1,)),\n", "                x.new_ones(x.shape[:-1] + (1,)),\n", mode='text', benign=True),
+]
